@@ -274,7 +274,7 @@ func ruleC09(c *Ctx) {
 		if fn.Parent() != nil || isBoundWrapper(fn) {
 			continue // closures and method-value wrappers are analysed inside their parent
 		}
-		if isRoot[fn] || c09SubKernels[shortFn(fn)] || (fn.Object() != nil && fn.Object().Exported()) {
+		if isRoot[fn] || c09SubKernels[shortFn(fn)] || isPublicFn(fn) {
 			work = append(work, fn)
 			queued[fn] = true
 		}
